@@ -184,7 +184,17 @@ local _lua_current_max_time = nil
 
 -- Reduces Lua timeout (used only for testing).  This is exposed to the
 -- sandbox and may be called from hostile code.
+-- Invocations nest (frame:preprocess() of text containing {{#invoke:}}).
+-- Only the outermost invocation installs and removes the hook, so that a
+-- nested invocation neither restarts the clock nor removes the limit of the
+-- invocation it returns to.
+local _lua_timeout_depth = 0
+
 local function _lua_set_timeout(timeout)
+    _lua_timeout_depth = _lua_timeout_depth + 1
+    if _lua_timeout_depth > 1 then
+        return
+    end
     if timeout ~= nil and timeout > 0.01 and timeout < _lua_max_time then
         _lua_current_max_time = timeout
     else
@@ -203,7 +213,11 @@ local function _lua_set_timeout(timeout)
 end
 
 local function _lua_clear_timeout_hook()
-    debug.sethook()
+    _lua_timeout_depth = _lua_timeout_depth - 1
+    if _lua_timeout_depth <= 0 then
+        _lua_timeout_depth = 0
+        debug.sethook()
+    end
 end
 
 -- Wiktionary uses a Module named "debug".  Force it to be loaded by
@@ -372,6 +386,8 @@ retained_modules[module_namespace_name .. ":collation"] = true
 -- environment.  Please report an issue on github if you find a way to
 -- circumvent the environment restrictions and access outside the sandbox.
 local function _lua_reset_env()
+    -- A reset happens only before an outermost invocation
+    _lua_timeout_depth = 0
     -- Clear some metatables
     setmetatable(_G, nil)
     -- Clear metatable added by "strict.lua"
